@@ -787,7 +787,15 @@ INTEGER_encode_uper(const asn_TYPE_descriptor_t *td,
 		ASN__ENCODE_FAILED;
 	}
 
-	for(buf = st->buf, end = st->buf + st->size; buf < end;) {
+	/* X.691, #11.4.6: the minimum number of octets, as in DER */
+	for(buf = st->buf, end = st->buf + st->size; buf < end - 1; buf++) {
+		if((buf[0] == 0x00 && (buf[1] & 0x80) == 0)
+		|| (buf[0] == 0xff && (buf[1] & 0x80) != 0))
+			continue;
+		break;
+	}
+
+	for(; buf < end;) {
         int need_eom = 0;
         ssize_t mayEncode = uper_put_length(po, end - buf, &need_eom);
         if(mayEncode < 0)
